@@ -11,13 +11,7 @@ func (da *DistributedAllocator) VerifCleanupExpiredFromStore(ctx context.Context
 	da.cleanupExpiredFromStore(ctx, currentEpoch)
 }
 
-// VerifTick runs the body of one epochLoop iteration synchronously, with exactly the
-// locking of epochLoop: the epoch advances under da.mu, the store cleanup runs after
-// the lock has been dropped.
+// VerifTick runs the body of one epochLoop iteration synchronously.
 func (da *DistributedAllocator) VerifTick(ctx context.Context) uint64 {
-	da.mu.Lock()
-	newEpoch := da.epochAllocator.AdvanceEpoch()
-	da.mu.Unlock()
-	da.cleanupExpiredFromStore(ctx, newEpoch)
-	return newEpoch
+	return da.tick(ctx)
 }
